@@ -167,3 +167,20 @@ Proof. vm_compute. reflexivity. Qed.
 
 Example nts_unknown_dc_now : nts_replica_map two_dcs [(dc1, 1); (dc3, 1)] [0; 1] ring_two = Ok [(0, [0])].
 Proof. vm_compute. reflexivity. Qed.
+
+(* ---- outside the property's quantifier: a host that owns no token ------------------------------------
+   The property quantifies over rings of nodes with 1..v tokens each.  Cassandra's topology holds token owners
+   only; the driver builds its rack table (dcRacks) from tokenRing.hosts, so the rack of a host WITHOUT tokens
+   counts as a rack of its DC although no ring entry is ever in it.  "Every rack used" is then never reached and
+   the endpoints passed over are never appended: fewer replicas than Cassandra places.  Such a host does not
+   reach the token-aware policy through a session - isValidPeer (host_source.go) drops peers without tokens and
+   the local node always reports its tokens - so this is recorded as an observation, not as a finding, and the
+   placement theorems carry [forall h, In h hosts <-> In h (map snd r)].  Machine-checked instance: hosts 0,1
+   (rack r1, tokens 0 and 10) and host 2 (rack r2, no token), dc1: 2 -> the driver gives [0] for token 0,
+   Cassandra [0; 1]. *)
+Example tokenless_host_observation :
+  let info := fun h => mkInfo dc1 (if h =? 2 then [114; 50] else r1) (167772161 + h) in
+  nts_replica_map info [(dc1, 2)] [0; 1; 2] [(0, 0); (10, 1)] = Ok [(0, [0]); (10, [1])]
+  /\ nts_natural_endpoints Z.ltb (dc_of info) (rack_of info) [(dc1, 2)] [(0, 0); (10, 1)] 0 = [0; 1]
+  /\ nts_replica_map info [(dc1, 2)] [0; 1] [(0, 0); (10, 1)] = Ok [(0, [0; 1]); (10, [1; 0])].
+Proof. repeat split; vm_compute; reflexivity. Qed.
